@@ -3,6 +3,8 @@
 package quiesce
 
 import (
+	"fmt"
+	"os"
 	"regexp"
 	"runtime"
 	"strings"
@@ -123,6 +125,13 @@ func Settle(budget time.Duration) ([]G, bool) {
 		}
 		last = sig
 		if time.Now().After(deadline) {
+			if os.Getenv("VERIF_DEBUG_SETTLE") != "" {
+				for _, g := range rel {
+					if !blocked(g.State) {
+						fmt.Fprintf(os.Stderr, "UNSETTLED %s\n", g.Stack)
+					}
+				}
+			}
 			return rel, false
 		}
 		time.Sleep(pause)
